@@ -30,19 +30,28 @@ for w in range(1, 33):
 # ---- group loops and 8-group callee contracts (contracts/bitpack.ovl) -------------------------------
 G = dict(overlays=OVL, harness='harness/C08/bitpack.c', **SRC)
 JOBS += [
-    # C08: the 8-group decoder for ANY width byte 0..255 (the width is not validated by its callers)
-    dict(name='c08_bitunpack8_32_anywidth', prop='C08', entry='h_bitunpack8_32', enforce='carquet_bitunpack8_32',
-         unwindset=['carquet_bitunpack8_32.0:34', 'carquet_bitunpack8_32.1:9'], loop_contracts=False,
+    # C08: the 8-group decoder for ANY width byte 0..255 (the width is not validated by its callers);
+    # the contract domain 0..255 is split into ranges
+] + [
+    dict(name='c08_bitunpack8_32_w%d_%d' % (lo, hi), prop='C08', entry='h_bitunpack8_32', enforce='carquet_bitunpack8_32',
+         defines=['CQV_U8_LO=%d' % lo, 'CQV_U8_HI=%d' % hi],
+         unwindset=['carquet_bitunpack8_32.0:%d' % (hi // 8 + 3), 'carquet_bitunpack8_32.1:9'], loop_contracts=False,
          functions=['carquet_bitunpack8_32'] + ['carquet_bitunpack8_%dbit' % w for w in range(1, 9)],
-         wip=True, est_s=60, **G),
+         wip=True, est_s=60, **G)
+    for lo, hi in [(0, 32), (33, 63), (64, 255)]
+] + [
     dict(name='c08_unpack8_safe_w0_32', prop='C08', entry='h_unpack8_safe_0_32', unwind=9, loop_contracts=False,
          functions=['carquet_bitunpack8_32'] + ['carquet_bitunpack8_%dbit' % w for w in range(1, 9)],
          wip=True, est_s=30, **G),
-    dict(name='c11_bitpack8_32_contract', props=['C11', 'C08'], entry='h_bitpack8_32', enforce='carquet_bitpack8_32',
+] + [
+    dict(name='c11_bitpack8_32_contract_w%d_%d' % (lo, hi), props=['C11', 'C08'], entry='h_bitpack8_32', enforce='carquet_bitpack8_32',
+         defines=['CQV_P8_LO=%d' % lo, 'CQV_P8_HI=%d' % hi],
          unwindset=['carquet_bitpack8_32.0:9', 'carquet_bitpack8_32.1:5', 'carquet_bitpack8_32.2:9'], loop_contracts=False,
-         wip=True, est_s=30, **G),
+         wip=True, est_s=60, **G)
+    for lo, hi in [(0, 8), (9, 16), (17, 24), (25, 32)]
+] + [
     dict(name='c08_bitunpack_32', props=['C08', 'C11'], entry='h_bitunpack_32', enforce='carquet_bitunpack_32',
-         replace=['carquet_bitunpack8_32'], min_loop_obligations=2, wip=True, est_s=60, **G),
+         replace=['carquet_bitunpack8_32', 'carquet_bitpack8_32'], min_loop_obligations=2, wip=True, est_s=60, **G),
     dict(name='c11_bitpack_32', props=['C11', 'C08'], entry='h_bitpack_32', enforce='carquet_bitpack_32',
-         replace=['carquet_bitpack8_32'], min_loop_obligations=2, wip=True, est_s=60, **G),
+         replace=['carquet_bitunpack8_32', 'carquet_bitpack8_32'], min_loop_obligations=2, wip=True, est_s=60, **G),
 ]
